@@ -5,6 +5,22 @@ import os
 VERIF = os.path.dirname(os.path.dirname(os.path.abspath(__file__)))
 
 CHECKS = {
+    "C05": dict(engine="store", level="exploration", design="4/C05, 3.2",
+                technique="deterministic simulation: seeded operation histories on three backends in lock-step vs. a dictionary reference model, restarts as operations",
+                text="Seeded operation histories over a small function/argument/value alphabet (prefix names, versions 1 vs 10, size classes relative to the drawn cache budget, key overrides, metadata, restarts) are executed in lock-step on the filesystem, filesystem+cache and memory backends; every answer is compared with a plain dictionary model, listings are compared after every operation and a full sweep (nothing forgotten reappears, every live entry reads its last value) runs at every restart and at the end.",
+                note="Sampling, not enumeration. Storage methods are driven directly with harness-built mementos. Metadata stored with a replaced/shared content object is treated as unspecified."),
+    "C06": dict(engine="store", level="exploration", design="4/C06, 3.2",
+                technique="deterministic simulation: seeded cache-use histories checked against LRU laws, with the filesystem seam deciding whether a read touched the store",
+                text="Cache-use histories over budgets from 2 KiB to 64 MiB and value sizes tiny/third/half/exact/oversize are checked after every operation against laws: usage <= budget, oversize never resident, usage counter = sum of resident entry sizes = recomputed estimates, zero after everything is forgotten, latest fitting write resident, a more recently used fitting entry is never evicted before a less recently used resident one, and a read of a resident value causes zero file opens under the store root (audit-hook seam).",
+                note="Laws, not a bit-exact replica; recency of bare lookups is left open. Sizes are the library's own estimate."),
+    "C07": dict(engine="store", level="exploration", design="4/C07, 3.2",
+                technique="deterministic simulation: seeded write/overwrite/forget histories with a whole-store integrity scan and ledger re-read after every step",
+                text="Histories biased to writes (shared override keys incl. k and k/sub, null results deleting the override link, equal bytes from different functions, forgets of other calls, restarts). After every step the tree under c/ is scanned (each object hashes to its name, links resolve, one object per hash) and every live memento is re-read through a cache-less backend and compared with the value recorded when it was created; content keys must equal c/<sha256 of the stored bytes> and equal bytes must share one (key, version).",
+                note="Sampling. Ledger values are compared by type-aware deep equality after a pickle round trip."),
+    "C19": dict(engine="store", level="exploration", design="4/C19, 3.2",
+                technique="deterministic simulation: operation and call histories under a mutation-intolerant filesystem seam (any audit-hook mutation event under the store roots is the violation)",
+                text="A store populated through a writable backend is reopened read-only (flag from argument or configuration dictionary, with and without cache, shared/separate metadata path) and driven by storage-level histories plus function-level calls, forget, forget_all, put_metadata and forget_cluster; any mutating filesystem event under the store roots, or any difference in the (path -> sha256) snapshot, is a violation; reads must answer per the dictionary model, memoize must be silent, forget/metadata writes must be rejected, un-memoized functions must execute on every call. Null storage and null runner clusters are driven by call histories: nothing is ever reported memoized / no body ever runs.",
+                note="Sampling. Trusts CPython audit events to cover all file mutations."),
     "C08": dict(engine="crash", level="fault_enumeration", design="4/C08, 3.3",
                 technique="deterministic simulation: fault injection at every mutating filesystem event (audit-hook seam), real process death, recovery lifetimes",
                 text="Every mutating filesystem event of eight memoization scenarios (x cache on/off x shared/separate metadata path) is hit by every applicable fault variant (crash before, crash after open, torn write + crash, errno before, short write + errno, error on first write); afterwards fault-free process lifetimes must return correct values, raise nothing, recompute each call at most once and then be served from the store. Single faults are enumerated completely; the thorough tier adds seeded fault sequences of length 2-3 including crash during recovery.",
